@@ -1868,9 +1868,20 @@ class MacroExpander:
                     current_arg = []
                     open_paren_count = 1
 
+                    # The trailing arguments of a variadic macro, including
+                    # the commas that separate them, form a single argument.
+                    if macro_lookup.variadic:
+                        max_commas = len(macro_lookup.args) - 1
+                    else:
+                        max_commas = None
+
                     while True:
                         tok = self.consume_tok()
-                        if tok.token == "," and open_paren_count == 1:
+                        if (
+                            tok.token == ","
+                            and open_paren_count == 1
+                            and (max_commas is None or len(args) < max_commas)
+                        ):
                             args.append(current_arg)
                             current_arg = []
                             continue
